@@ -134,6 +134,15 @@ func recursiveDoc(t *rapid.T) map[string]any {
 		n = map[string]any{"properties": map[string]any{"c": ref("M")}, "dependencies": map[string]any{"v": []any{"c"}}}
 	}
 	defs := map[string]any{"N": n, "M": map[string]any{"allOf": []any{ref("N")}, "minProperties": gen.Number(0)}}
+	switch gen.UniformIndex(t, 6, "recsection") {
+	case 0:
+		// the recursive schema lives under another keyword than definitions, and the root is a bare reference to it
+		node := map[string]any{"type": "object", "properties": map[string]any{"c": map[string]any{"$ref": "#/properties/c"}, "v": map[string]any{"type": "integer"}}}
+		return map[string]any{"$ref": "#/properties/c", "properties": map[string]any{"c": node}}
+	case 1:
+		node := map[string]any{"type": "array", "items": map[string]any{"$ref": "#/additionalProperties"}}
+		return map[string]any{"$ref": "#/additionalProperties", "additionalProperties": node}
+	}
 	var root map[string]any
 	switch gen.UniformIndex(t, 4, "recroot") {
 	case 0, 1:
